@@ -55,3 +55,10 @@ CHECK = {
                     "is the float nearest to the decimal (e.g. 0.001f = 0.00100000005)",
                     "g++ 12 ASan+UBSan runtime; asserts live (no -DNDEBUG)"],
 }
+
+# additionally: a reduced workload under valgrind memcheck, for uninitialised-value
+# use and invalid accesses that the ASan build cannot see; oracle verdicts are not taken from this
+# flavour (valgrind emulates long double with 64 bits), only memcheck's own reports and aborts
+CHECK["thorough"]["flavours"] = list(CHECK.get("flavours", ["asan"])) + ["memcheck"]
+CHECK["quick"]["flavours"] = list(CHECK.get("flavours", ["asan"])) + ["memcheck"]
+CHECK["flavour_cases"] = {"memcheck": {"quick": 2000, "thorough": 40000}}
